@@ -302,6 +302,7 @@ const allocBase, allocPerByte = 32 << 20, 16 << 10
 
 // peak memory: the heap obtained from the OS must stay below this for the whole shard (GC is made aggressive in Init)
 const heapHighWater = 768 << 20
+const heapCallGrowth = 128 << 20
 
 var heapFlagged bool
 
@@ -325,7 +326,9 @@ func decodeOnce(c *Ctx, e decodeEntry, in []byte, followUps bool) {
 	if panicked {
 		return
 	}
-	if ms1.HeapSys > heapHighWater && !heapFlagged {
+	// judged per call: the heap must be above the mark AND this call must have grown it (what earlier layers of the same shard
+	// obtained, or a collector that lags on a loaded machine, is not this input's doing)
+	if ms1.HeapSys > heapHighWater && ms1.HeapSys-ms0.HeapSys >= heapCallGrowth && !heapFlagged {
 		heapFlagged = true
 		c.Fail("memory|"+decoderFamily(e.Name)+"|heap-high-water", fmt.Sprintf("%s on a %d byte input drove the heap obtained from the OS to %d MiB (limit %d MiB)", e.Name, len(in), ms1.HeapSys>>20, heapHighWater>>20),
 			map[string]any{"entry": e.Name, "input_len": len(in), "heap_sys": ms1.HeapSys, "input_prefix": clipB(in[:minInt(len(in), 200)])})
@@ -605,7 +608,7 @@ func init() {
 	Register(&Prop{
 		ID: "C04",
 		Rule: fmt.Sprintf("%d decode entry points discovered by reflection (UnmarshalJSON / UnmarshalText / GobDecode / UnmarshalBinary on the 14 structs and 12 leaf types, plus the two package functions); corpus of %d inputs (repository mocks; the library's own JSON and gob encodings of generated values; gob streams of the wrong shape; structural hostile documents; every term x %d JSON value kinds; nesting 50-5000; 70 kB strings; every single byte; empty and 2-byte inputs); exhaustive layer: every corpus input x every entry point; random layer: 1-3 structure-aware mutations (truncate, bit flip, span delete/duplicate, dictionary insert, splice, scalar->array) of a corpus input on a random entry point; "+
-			"each call runs under recover() with two memory meters (cumulative allocation <= 32 MiB + 16 KiB/byte for the JSON and text decoders; heap obtained from the OS <= 768 MiB for every decoder, with GC percent 25), process-fatal outcomes (stack overflow, runtime faults, sanitizer reports, hangs) are attributed by the supervisor through the write-ahead record; every returned value then goes through ~45 follow-up operations (inspect, compare, both encoders, format, deref, On*/To*); distinct = (entry point, input hash); non-trivial = input that is not rejected at the first byte (valid JSON, broken JSON starting like JSON, or a decodable gob prefix)",
+			"each call runs under recover() with two memory meters (cumulative allocation <= 32 MiB + 16 KiB/byte for the JSON and text decoders; heap obtained from the OS <= 768 MiB for every decoder unless the call itself grew it by less than 128 MiB, with GC percent 25), process-fatal outcomes (stack overflow, runtime faults, sanitizer reports, hangs) are attributed by the supervisor through the write-ahead record; every returned value then goes through ~45 follow-up operations (inspect, compare, both encoders, format, deref, On*/To*); distinct = (entry point, input hash); non-trivial = input that is not rejected at the first byte (valid JSON, broken JSON starting like JSON, or a decodable gob prefix)",
 			ne, len(corpus), len(mistypedValues)),
 		WatchdogS: 900,
 		Finish: func(c *Ctx) {
